@@ -8,7 +8,8 @@ LEVEL_TEXT = ('For every topic, partition, acks value and payload list the bytes
               'i16(acks) i32(1000) i32(1) string(topic) i32(1) i32(partition) i32(set size), then per payload i64(0) i32(14+len p) u32(crc32 of magic/attributes/key/value) magic 0, attributes 0, key length -1, i32(len p), p; '
               'the declared set size is the sum over the payloads of 8+4+4+len(p)+10 and that summand is proved equal to the number of bytes written for the message; '
               'the request header = i32(16+n) i16(api) i16(0) i32(correlation id) i16(6) "scales" without struct.error for any value in range; '
-              'the produce-response decoder returns, entry by entry, exactly topic/partition/error/offset of the encoded entry; a reply is routed by the correlation id in its first four bytes.')
+              'the produce-response decoder returns, entry by entry, exactly topic/partition/error/offset of the encoded entry; a reply is routed by the correlation id in its first four bytes.'
+              ' KafkaSerializerSink.AsyncProcessRequest is verified to serialize every request into a buffer created for it and to forward that buffer holding exactly the bytes the protocol wrote (the transport frames stream.getvalue()); the produce response decoder reads partition/error/offset as signed big-endian fields.')
 LEVEL_NOTE = ('Trusted: pyvc byte algebra, z3; struct; zlib.crc32 uninterpreted (range [0,2^32), crc32(b, crc32(a)) = crc32(a++b)); MessageHelper.GetPutArgs (argument unpacking through *args) is an assumed contract; '
               'the response stream is unfolded one repetition element per loop iteration (stream_front = the precondition "the stream is the broker\'s encoding"); the fold "sum of per-message sizes = bytes of the set" is the loop itself. '
               'Metadata responses (ReadInt32Array with a computed struct format) and _SerializeMetadataRequest are not under contract in this version. Stated ranges: struct field ranges (int16 topic length/acks, int32 sizes).')
